@@ -371,7 +371,7 @@ Proof.
      [ intros Sk; try (eapply CK; [reflexivity|exact Sk]);
        try (rewrite Sk; split; [reflexivity|]; unfold verify_ok in *; rewrite Sk in *; cbn in *; bool_hyps; assumption)
      | intros _; split; [reflexivity|]; apply N.eqb_neq; assumption ]).
-  - apply N.eqb_neq in EV. rewrite (Ht EV) in S.
+  - apply N.eqb_neq in EV. unfold wire_ticket in S. rewrite (Ht EV) in S. cbn [orb] in S.
     repeat match type of S with context [match ?x with _ => _ end] => destruct x eqn:? end;
     inversion S; subst; clear S; try discriminate Hc;
     repeat match goal with
@@ -657,7 +657,7 @@ Proof.
       end;
     cbn [o_offer] in Ho; inversion Ho; subst;
     (eexists; split; [apply lookup_put_same|]); unfold stored; cbn; auto.
-  - apply N.eqb_neq in EV. rewrite (Ht EV) in S.
+  - apply N.eqb_neq in EV. unfold wire_ticket in S. rewrite (Ht EV) in S. cbn [orb] in S.
     repeat match type of S with context [match ?x with _ => _ end] => destruct x eqn:? end;
     inversion S; subst; clear S; try discriminate Hr;
     repeat match goal with
